@@ -95,8 +95,8 @@ Proof.
       apply Z.eqb_eq in B. stp Hk. local g t RIdle Hk Hr.
       * constructor; auto.
       * unfold pop_ok. cbn [mk stk mem gset_role grole nthr]. rewrite upd_same.
-        split; [exists sd'; repeat split; auto; rewrite upd_other; auto|]. split; auto.
-        exists r0. rewrite upd_other; auto.
+        split; [exists sd'; split; [auto|]; split; [|exact Q3]; cbn [gset_role grole]; rewrite upd_other; auto|].
+        split; auto. exists r0. rewrite upd_other; auto.
     + destruct (wc + 1 <? cnt) eqn:L.
       * stp Hk. apply Z.ltb_lt in L.
         eapply (wake_inv s g t sd cnt wc f p k r (mem s)); eauto.
